@@ -41,7 +41,11 @@ def formula_set(tier):
 def shards(tier):
     fs = formula_set(tier)
     per = 12 if tier == 'quick' else 5
-    return [{'formulas': [F.to_json(f) for f in fs[i:i + per]]} for i in range(0, len(fs), per)]
+    out = [{'formulas': [F.to_json(f) for f in fs[i:i + per]]} for i in range(0, len(fs), per)]
+    deep = [f for f in F.deep_formulas(OPS_U, (), two_var=False) if not F.has_op(f, ('prev', 'next', 'rise'))]
+    deep = deep[::3] if tier == 'quick' else deep
+    out += [{'formulas': [F.to_json(f) for f in deep[i:i + 3]], 'deep': True} for i in range(0, len(deep), 3)]
+    return out
 
 
 def half_bound(I):
@@ -86,6 +90,8 @@ def run_shard(shard, tier, res):
         res.formulas += 1
         n = (5 if len(vs) == 1 else 3) if quick else (6 if len(vs) == 1 else 4)
         values = F.V3 if (len(vs) == 1 or not quick) else F.V2
+        if shard.get('deep'):
+            n, values = (9 if quick else 11), F.V2
         for cfg in CONFIGS:
             text = 'out = ' + F.pr(f, cfg[2])
             try:
